@@ -61,6 +61,11 @@ CHECKS = {
             "TLC is the independent interpreter: the meaning of each operator is written in TLA+; TLC checks determinism and purity of the design exhaustively for short programs and generates type-directed random programs (operands preferably earlier variables, so one binding feeds several later expressions; collection- and concatenation-focused configurations cross slice-capacity steps). The real evaluator's value for every variable, read back at the end, must equal the reference value (sets as sets, with duplicate detection; lists as sequences); each program is evaluated twice for repeatability.",
             "Operand kinds accepted per operator follow the dispatch table of pkg/eval (no other definition exists); covered: integer arithmetic/comparison, string concatenation/equality, and, negation, if-then-else, list concatenation, set union, count, membership, where, transforms over lists/sets/maps, record construction, attribute access; not covered: flatten, model-typed arguments, calls between views.",
             "DESIGN.md §6 C10"),
+    "C14": ("model_checking",
+            "TLA+ spec IntsDiagram.tla (the three builder passes as actions, pass-through walk with a walked set, Sound/Complete as predicates, termination as liveness) model-checked by TLC over every call relation x listed/excluded/pass-through choice on 3 applications; TLC-generated models run through the real builder and view generator; dependency list and PlantUML arrows judged by TLC (IntsTrace.tla)",
+            "TLC checks on the design that the arrows are sound and complete and that the pass-through walk ends on cyclic pass-through sets; for TLC-generated random models (5 applications, calls nested in every block kind, pass-through chains and cycles, projects with two views generated in one run, plain/clustered/endpoint-analysis views) the real IntsBuilder's dependency list and the arrows read back from the PlantUML text must satisfy the same Sound/Complete predicates; a crash, stack exhaustion or hang is an unexplained event.",
+            "Listed and excluded sets disjoint; ~human/~hidden not generated; endpoint-analysis view judged on the dependency list only.",
+            "DESIGN.md §6 C14"),
 }
 
 PENDING = {}
